@@ -69,7 +69,7 @@ func finalOutsCheck(t *rapid.T, rc *runCase, prop string) {
 	if err != nil {
 		fail(t, prop, "top-outs-unreadable", "%v\n%s", err, rc.describe())
 	}
-	if ok, d := refsem.EqualSoft(rc.model.Outs, outs, "outs"); !ok {
+	if ok, d := refsem.EqualSoft(rc.model.Outs, outs, "outs"); !ok && !skipTopOuts {
 		fail(t, prop, "final-outputs-differ", "after the restart the final outputs are not those of an undisturbed run: %s\n  recorded: %s\n  expected: %s\n%s", d, jsonx.Marshal(outs), jsonx.Marshal(refsem.Concretize(rc.model.Outs)), rc.describe())
 	}
 }
@@ -431,7 +431,7 @@ func interruptTestWith(t *testing.T, PROP string, fateChoices []string, gen func
 		if err != nil {
 			t.Fatalf("INFRA: reference run: %v", err)
 		}
-		if a, b := normPaths(post, rc.sim.Dir), normPaths(ref, rc.sim.Dir+"-ref/ps"); !jsonx.Equal(a, b, true) {
+		if a, b := normPaths(post, rc.sim.Dir), normPaths(ref, rc.sim.Dir+"-ref/ps"); !jsonx.Equal(a, b, true) && !skipTopOuts {
 			fail(t, PROP, "final-record-differs", "the outputs record left after the final cleanup differs from that of an undisturbed run\n  interrupted: %s\n  undisturbed: %s\n%s", jsonx.Marshal(a), jsonx.Marshal(b), rc.describe())
 		}
 		var cl []string
